@@ -78,7 +78,6 @@ theorem schedules_reduce_to_histories :
     goroutine reports the removal after its copy loop ended (UDP) — regenerated wiring facts; the
     `tcp` campaign watches the same on the real handler. -/
 theorem callers_pair_start_and_stop :
-    Gen.Wiring.tcpOpenedOnceBeforeHandle = true ∧
     Gen.Wiring.tcpClosedOnceAfterHandleConnection = true ∧ Gen.Wiring.natGoroutineRemovesAndCloses = true := by decide
 
 /-- an authenticated connection with an EMPTY key id is stopped like any other (the caller remembers
